@@ -59,7 +59,7 @@ func init() {
 		for i := 0; i < n; i++ {
 			nc := 0
 			if rng.Intn(3) > 0 {
-				nc = 2 + rng.Intn(2)
+				nc = 1 + rng.Intn(3) // a single conflict too: were it missed, the merge would succeed and the orders could differ
 			}
 			ms := GenModSet(rng, nc)
 			ms.Render(rng)
